@@ -101,6 +101,7 @@ type FnCtx struct {
 	pfUsed       map[string]bool
 	mkArgs       map[string][]string
 	nPreFacts    int
+	topFr        *frame // frame of the function under verification (VerifyFunc)
 }
 
 type deferred struct {
